@@ -48,6 +48,7 @@ fn streams() -> Vec<(&'static str, GenFn, EvalFn)> {
         ("inj", s_inj::gen, s_inj::eval),
         ("ofint", s_inj::gen_ofint, s_inj::eval_ofint),
         ("injbase", s_inj::gen_base, s_inj::eval_base),
+        ("injtime", s_inj::gen_time, s_inj::eval_time),
         ("filter", s_filter::gen, s_filter::eval),
         ("filterx", s_filter::genx, s_filter::evalx),
         ("sqlx", s_sqlx::gen, s_sqlx::eval),
